@@ -1447,6 +1447,12 @@ class Config:  # pylint: disable=too-many-instance-attributes
             for key, field in schema._fields.items()
             if isinstance(field, Schema)
         ]
+        # a config type used as a field is a nested configuration like any other
+        sub_schemas += [
+            (key, field.config_type.__schema__)
+            for key, field in schema._fields.items()
+            if isinstance(field, ConfigTypeField)
+        ]
         includes: List[Tuple[str, IncludeFieldMixin]] = [
             (key, field)
             for key, field in schema._fields.items()  # type: ignore
